@@ -350,3 +350,50 @@ Fixpoint stmt_eqb (a b : stmt) {struct a} : bool :=
   | _, _ => false
   end.
 Definition stmts_eqb := list_beq stmt_eqb.
+
+(* A structural hash (polynomial, modulo 2^61-1), mirrored in props/C28/check.py: lets the harness
+   ship the implementation's resulting tree as one number for most cases (a sample is still
+   compared node by node with [stmts_eqb]). *)
+Definition hmod : Z := 2305843009213693951%Z.
+Definition mix (h x : Z) : Z := ((h * 1000003 + x) mod hmod)%Z.
+Definition binop_code (o : binop) : Z :=
+  match o with Add => 1 | Sub => 2 | Mul => 3 | Div => 4 | Pow => 5 | Eq => 6 | Ne => 7 | Lt => 8
+             | Le => 9 | Gt => 10 | Ge => 11 | And => 12 | Or => 13 end%Z.
+Definition unop_code (o : unop) : Z := match o with Neg => 1 | Not => 2 end%Z.
+Definition intr_code (f : intr) : Z :=
+  match f with IMin => 1 | IMax => 2 | IMod => 3 | IAbs => 4 | ISign => 5 | ILbound => 6 | IUbound => 7
+             | ISize => 8 end%Z.
+
+Fixpoint hash_expr (e : expr) (h : Z) {struct e} : Z :=
+  let go := (fix go (l : list expr) (h : Z) {struct l} : Z :=
+               match l with [] => mix h 90 | x :: r => go r (hash_expr x h) end) in
+  match e with
+  | ELit z => mix (mix h 1) z
+  | EVar x => mix (mix h 2) (Z.of_nat x)
+  | EIdx a ix => go ix (mix (mix h 3) (Z.of_nat a))
+  | EUn o e1 => hash_expr e1 (mix (mix h 4) (unop_code o))
+  | EBin o l r => hash_expr r (hash_expr l (mix (mix h 5) (binop_code o)))
+  | EIntr f args => go args (mix (mix h 6) (intr_code f))
+  end.
+
+Fixpoint hash_exprs (l : list expr) (h : Z) : Z :=
+  match l with [] => mix h 90 | x :: r => hash_exprs r (hash_expr x h) end.
+
+Fixpoint hash_stmt (s : stmt) (h : Z) {struct s} : Z :=
+  let go := (fix go (l : list stmt) (h : Z) {struct l} : Z :=
+               match l with [] => mix h 91 | x :: r => go r (hash_stmt x h) end) in
+  match s with
+  | SAssign x ix e => hash_expr e (hash_exprs ix (mix (mix h 11) (Z.of_nat x)))
+  | SIf c th el => go el (go th (hash_expr c (mix h 12)))
+  | SDo x lo hi st b => go b (hash_expr st (hash_expr hi (hash_expr lo (mix (mix h 13) (Z.of_nat x)))))
+  | SExit => mix h 14
+  | SCycle => mix h 15
+  | SReturn => mix h 16
+  | SPrint es => hash_exprs es (mix h 17)
+  | SRegion r b => go b (mix (mix h 18) (Z.of_nat r))
+  | SDir d b => go b (mix (mix h 19) (Z.of_nat d))
+  end.
+
+Fixpoint hash_stmts (l : list stmt) (h : Z) : Z :=
+  match l with [] => mix h 91 | x :: r => hash_stmts r (hash_stmt x h) end.
+Definition tree_hash (p : list stmt) : Z := hash_stmts p 7%Z.
